@@ -65,7 +65,16 @@ def guards(body):
                 'try_lock': 'lock', 'write_owned': 'write', 'read_owned': 'read', 'lock_owned': 'lock'}.get(mode, mode)
         lock_expr = acq.b[0] if acq.b else F.Expr('unknown', 'lock')
         out.append(Guard(body, l, acq.c, lock_expr, mode))
-    return out
+    # a guard moved from one local into another (`val` -> `counters`): the final owner is the guard;
+    # the scope-end drop of the moved-from local is a no-op
+    moved_from = set()
+    locs = set(g.local for g in out)
+    for bi, si, s in body.stmts():
+        r = s['r']
+        if r['k'] == 'use' and 'p' in r['o'] and r['o'].get('m') and len(r['o']['p']) == 1 and len(s['d']) == 1:
+            if r['o']['p'][0] in locs and s['d'][0] in locs:
+                moved_from.add(r['o']['p'][0])
+    return [g for g in out if g.local not in moved_from]
 
 
 def awaited_call(body, l, depth=14):
@@ -278,3 +287,302 @@ def ret_agg_blocks(body, adt_variant_rx):
             if rx.search(desc):
                 out.append((d[1], d[3]))
     return out
+
+
+# ------------------------------------------------------------------------------------------------
+# format templates (core::fmt::Arguments::new(template, args) in this toolchain)
+# ------------------------------------------------------------------------------------------------
+
+def _unescape_bytes(lit):
+    """b"\\x04wal.\\xc0" (as printed by rustc) -> bytes"""
+    m = re.match(r'^(?:const )?b"(.*)"$', lit, re.S)
+    if not m:
+        return None
+    s = m.group(1)
+    out = bytearray()
+    i = 0
+    while i < len(s):
+        c = s[i]
+        if c == '\\':
+            n = s[i + 1]
+            if n == 'x':
+                out.append(int(s[i + 2:i + 4], 16))
+                i += 4
+                continue
+            out += {'n': b'\n', 't': b'\t', 'r': b'\r', '0': b'\0', '\\': b'\\', '"': b'"', "'": b"'"}.get(n, n.encode())
+            i += 2
+            continue
+        out += c.encode('utf-8')
+        i += 1
+    return bytes(out)
+
+
+def fmt_template(lit):
+    """decode a fmt::Arguments template into [('lit', str) | ('arg', index)]"""
+    b = _unescape_bytes(lit)
+    if b is None:
+        return None
+    out = []
+    i = 0
+    argi = 0
+    while i < len(b):
+        n = b[i]
+        i += 1
+        if n == 0:
+            break
+        if n < 0x80:
+            out.append(('lit', b[i:i + n].decode('utf-8', 'replace')))
+            i += n
+        elif n == 0x80:
+            ln = b[i] | (b[i + 1] << 8)
+            i += 2
+            out.append(('lit', b[i:i + ln].decode('utf-8', 'replace')))
+            i += ln
+        else:
+            if n & 1:
+                i += 4
+            if n & 2:
+                i += 2
+            if n & 4:
+                i += 2
+            if n & 8:
+                argi = b[i] | (b[i + 1] << 8)
+                i += 2
+            out.append(('arg', argi))
+            argi += 1
+    return out
+
+
+def format_calls(body):
+    """every fmt::Arguments::new in the body: (CallSite, pieces, arg exprs)"""
+    out = []
+    for cs in body.calls(r'fmt::Arguments::<.*>::new$|fmt::Arguments::new$|Arguments::<.*>::new_const|Arguments::<.*>::from_str'):
+        if not cs.args:
+            continue
+        t = body.expr(cs.args[0]).strip()
+        lit = t.a if t.k == 'const' else None
+        pieces = fmt_template(lit) if lit else None
+        if pieces is None and t.k == 'const' and isinstance(t.a, str) and t.a.startswith('"'):
+            pieces = [('lit', t.a.strip('"'))]
+        args = []
+        if len(cs.args) > 1:
+            a = body.expr(cs.args[1]).strip()
+            if a.k == 'agg':
+                for x in a.b:
+                    x = x.strip()
+                    if x.k == 'call' and x.b:
+                        args.append(x.b[0].strip())
+                    else:
+                        args.append(x)
+        out.append((cs, pieces, args))
+    return out
+
+
+def string_template(prog, body, e):
+    """what literal text an expression of type String / &str starts with and consists of:
+    returns list of ('lit', s) | ('arg', expr) or None when it cannot be determined"""
+    e = e.strip()
+    if e.k == 'const':
+        if e.d and e.d in prog.consts and 's' in prog.consts[e.d]:
+            return [('lit', prog.consts[e.d]['s'])]
+        if isinstance(e.a, str) and e.a.startswith('"') and e.a.endswith('"'):
+            return [('lit', e.a[1:-1])]
+        return None
+    if e.k == 'call':
+        if re.search(r'(fmt::format|hint::must_use|fmt::format::format_inner)$', e.a) and e.b:
+            return string_template(prog, body, e.b[0])
+        if re.search(r'fmt::Arguments::<.*>::new$|fmt::Arguments::new$', e.a):
+            t = e.b[0].strip()
+            pieces = fmt_template(t.a) if t.k == 'const' else None
+            if pieces is None:
+                return None
+            args = []
+            if len(e.b) > 1:
+                a = e.b[1].strip()
+                if a.k == 'agg':
+                    for x in a.b:
+                        x = x.strip()
+                        args.append(x.b[0].strip() if (x.k == 'call' and x.b) else x)
+            out = []
+            for kind, v in pieces:
+                if kind == 'lit':
+                    out.append(('lit', v))
+                else:
+                    ax = args[v] if v < len(args) else None
+                    sub = string_template(prog, body, ax) if ax is not None else None
+                    if sub and all(k == 'lit' for k, _ in sub):
+                        out += sub
+                    else:
+                        out.append(('arg', ax))
+            # merge literals
+            merged = []
+            for k, v in out:
+                if k == 'lit' and merged and merged[-1][0] == 'lit':
+                    merged[-1] = ('lit', merged[-1][1] + v)
+                else:
+                    merged.append((k, v))
+            return merged
+        if F.TRANSPARENT.match(e.a) and e.b:
+            return string_template(prog, body, e.b[0])
+    if e.k == 'field' and e.a.k == 'local':
+        # (&a, &b) tuple of format args: _21.0 -> the element
+        pass
+    return None
+
+
+# ------------------------------------------------------------------------------------------------
+# must-pass / ordering
+# ------------------------------------------------------------------------------------------------
+
+def must_pass(body, start_nodes, pass_nodes, end_nodes):
+    """True iff every path from any start node to any end node goes through a pass node.
+    returns (ok, witness_end) — witness = an end node reachable while avoiding pass nodes"""
+    reach = body.reachable_from(list(start_nodes), set(pass_nodes))
+    for e in end_nodes:
+        if e in reach:
+            return False, e
+    return True, None
+
+
+def rpo(body):
+    succ, _, _ = body.cfg()
+    seen = set([0])
+    post = []
+    stack = [(0, iter(succ[0]))]
+    while stack:
+        node, it = stack[-1]
+        adv = False
+        for y in it:
+            if y not in seen:
+                seen.add(y)
+                stack.append((y, iter(succ[y])))
+                adv = True
+                break
+        if not adv:
+            post.append(node)
+            stack.pop()
+    order = post[::-1]
+    return {n: i for i, n in enumerate(order)}
+
+
+def natural_loops(body):
+    """list of (header, body_nodes, back_edge_sources) using dominators on the edge-split CFG"""
+    succ, pred, _ = body.cfg()
+    loops = {}
+    dom = body.dominators()
+    for a in dom:
+        for h in succ[a]:
+            if h in dom and body.dominates(h, a):
+                # back edge a -> h
+                nodes = loops.setdefault(h, set([h]))
+                stack = [a]
+                while stack:
+                    x = stack.pop()
+                    if x not in nodes:
+                        nodes.add(x)
+                        stack += [p for p in pred[x] if p in dom]
+    return [(h, ns) for h, ns in loops.items()]
+
+
+def loop_exits(body, nodes):
+    succ, _, _ = body.cfg()
+    out = []
+    for n in nodes:
+        for s in succ[n]:
+            if s not in nodes:
+                out.append((n, s))
+    return out
+
+
+def operand_ty(body, op):
+    if 'p' in op and len(op['p']) == 1:
+        return body.local_ty(op['p'][0])
+    if 'ty' in op:
+        return op['ty']
+    return None
+
+
+def success_returns(body):
+    """blocks assigning _0 = Ok(..)/Some(..) aggregates (success returns of a Result/Option fn)"""
+    out = []
+    for d in body.defs().get(0, []):
+        if d[0] == 's':
+            r = d[3]['r']
+            if r['k'] == 'agg' and r.get('var') in ('Ok', 'Some'):
+                out.append((d[1], d[3]))
+    return out
+
+
+# ------------------------------------------------------------------------------------------------
+# callee summaries: "every success return of G has passed P"
+# ------------------------------------------------------------------------------------------------
+
+class MustPassSummary:
+    """is_p(callee id): the callee (an in-crate fn; for an async fn its coroutine) executes a site
+    matching `direct` — or a call to another such callee — with success, on every path to each of
+    its success returns. Depth-bounded, recursion cut."""
+
+    def __init__(self, prog, direct, depth=3):
+        self.prog = prog
+        self.direct = direct
+        self.depth = depth
+        self.memo = {}
+
+    def body_for(self, callee):
+        prog = self.prog
+        if callee not in prog.bodies:
+            return None
+        b = prog.bodies[callee]
+        if b.is_async:
+            c = callee + '::{closure#0}'
+            if c in prog.bodies:
+                return prog.bodies[c]
+        return b
+
+    def is_p_call(self, cs, depth=None):
+        depth = self.depth if depth is None else depth
+        if self.direct(cs):
+            return True
+        if depth <= 0:
+            return False
+        callee = cs.callee
+        # a poll of `G::{closure#0}` is the execution of async fn G
+        if callee.endswith('::{closure#0}') and callee[:-len('::{closure#0}')] in self.prog.bodies:
+            base = callee[:-len('::{closure#0}')]
+            if self.prog.bodies[base].is_async:
+                return self.fn_is_p(base, depth - 1)
+            return False
+        if callee in self.prog.bodies and not self.prog.bodies[callee].is_async:
+            return self.fn_is_p(callee, depth - 1)
+        return False
+
+    def fn_is_p(self, fid, depth):
+        key = (fid, depth)
+        if key in self.memo:
+            return self.memo[key]
+        self.memo[key] = False
+        b = self.body_for(fid)
+        res = False
+        if b is not None:
+            sites = [cs for cs in b.calls() if self.is_p_call(cs, depth)]
+            succ = [bb for bb, _ in success_returns(b)]
+            ends = succ if succ else b.return_blocks()
+            if sites and ends:
+                ok_all = True
+                for e in ends:
+                    dominated = False
+                    for cs in sites:
+                        te = F.try_edges(b, cs)
+                        node = te[0] if (te and te[0] is not None) else (cs.target if not succ else None)
+                        if node is not None and b.dominates(node, e):
+                            dominated = True
+                            break
+                    if not dominated:
+                        ok_all = False
+                        break
+                res = ok_all
+        self.memo[key] = res
+        return res
+
+    def sites(self, body):
+        return [cs for cs in body.calls() if self.is_p_call(cs)]
